@@ -1,0 +1,20 @@
+//go:build verif
+
+package badger
+
+// Verification exports for the close / re-open checks (C07, C11, C14). Add-only; compiled
+// only with `-tags verif`.
+
+// VerifReadTxnAt returns a read-only transaction whose read timestamp is ts, in normal mode
+// too (NewTransactionAt insists on a managed DB). It takes no part in the oracle's read
+// watermark, exactly like a managed transaction; use it only while nothing is compacting.
+func (db *DB) VerifReadTxnAt(ts uint64) *Txn {
+	txn := db.newTransaction(false, true)
+	txn.readTs = ts
+	// Discard must not call readMark.Done for a timestamp that was never begun.
+	txn.doneRead = true
+	return txn
+}
+
+// VerifIsReadOnly reports Options.ReadOnly of an open DB.
+func (db *DB) VerifIsReadOnly() bool { return db.opt.ReadOnly }
